@@ -289,7 +289,7 @@ func cmdCheck(args []string) {
 	for _, e := range v.specErrors {
 		report("contract-binding[spec]", "contract does not type-check against the code: "+e, "", nil, nil, nil)
 	}
-	quickT, longT := 10, 30
+	quickT, longT := 10, 60
 	if *tier == "thorough" {
 		quickT, longT = 20, 120
 	}
@@ -324,6 +324,9 @@ func cmdCheck(args []string) {
 		solverS += r.R.Seconds
 		if r.R.Seconds > maxS {
 			maxS = r.R.Seconds
+		}
+		if r.R.Verdict == "unsat" && os.Getenv("GOVC_SLOW") != "" && r.R.Seconds > 8 {
+			fmt.Printf("SLOW %.1fs %s %s\n", r.R.Seconds, r.R.Solver, r.O.Name)
 		}
 		if r.R.Verdict == "unsat" {
 			nDis++
